@@ -6,6 +6,7 @@ import (
 	"math"
 	"sort"
 	"strings"
+	"time"
 
 	"github.com/tyler-sommer/stick"
 	"github.com/tyler-sommer/stick/twig"
@@ -45,7 +46,7 @@ var c02Hand = []string{
 	"{% macro m(a) %}{{ a.b }}{% endmacro %}{{ _self.m() }}{{ _self.m(1, 2, 3) }}{{ _self.nope() }}", "{{ _self.templateName }}", "{{ _self }}", "{{ loop }}", "{{ loop.index }}",
 	"{% import 'nope' as x %}", "{% from 'nope' import y %}", "{% extends 'nope' %}", "{% use 'nope' %}", "{% embed 'nope' %}{% endembed %}",
 	"{% for i in 1..3 %}{% for j in i..3 %}{{ loop.parent.loop.index }}{{ loop.parent.index }}{% endfor %}{% endfor %}",
-	"{{ arr[arr] }}", "{{ m[m] }}", "{{ m[arr] }}", "{{ m[fnv] }}", "{{ obj[obj] }}", "{{ (1..3)[5] }}", "{{ 'str'.x }}", "{{ 5.x }}", "{{ null.x }}", "{{ true[0] }}",
+	"{{ 'now'|date('Y\\') }}", "{{ 'now'|date('\\') }}", "{{ tm|date('D, d M Y\\') }}", "{{ nilm|merge({'a': 1}) }}", "{{ nilm|merge(m) }}", "{{ m|merge(nilm) }}", "{{ arr[arr] }}", "{{ m[m] }}", "{{ m[arr] }}", "{{ m[fnv] }}", "{{ obj[obj] }}", "{{ (1..3)[5] }}", "{{ 'str'.x }}", "{{ 5.x }}", "{{ null.x }}", "{{ true[0] }}",
 }
 
 func (p *c02) Init(tier string, seed int64) {
@@ -58,7 +59,9 @@ func (p *c02) Init(tier string, seed int64) {
 	sort.Strings(p.filters)
 	p.zoo = append(gen.Scalars(), gen.Containers()...)
 	p.argLists = [][]stick.Value{{}, {0}, {1}, {2}, {-1}, {"x"}, {""}, {nil}, {1.5}, {math.NaN()}, {2, "f"}, {3, nil}, {"Y-m-d"}, {[]int{1, 2}}, {map[string]stick.Value{"a": "b"}}, {1, 2, 3},
-		{400}, {math.Inf(1)}, {-5, "ceil"}, {"a", "b"}, {true}}
+		{400}, {math.Inf(1)}, {-5, "ceil"}, {"a", "b"}, {true},
+		{"\\"}, {"Y-m-d\\"}, {"D, d M Y H:i:s \\a\\t"}, {"jS F y"}, {"%"}, {"%s %d %"}, {strings.Repeat("x", 300)}, {"é"}, {"\xff"}, {-1, -1}, {1 << 40}, {0.5, 0.5},
+		{map[string]stick.Value(nil)}, {[]stick.Value(nil)}, {(*int)(nil)}, {gen.ValStringer{S: "s"}}, {[]string{"a", "b"}, "x"}, {"", ""}, {" ", 2}}
 	p.nFilterCase = len(p.filters) * len(p.zoo)
 	p.handN = len(c02Hand)
 }
@@ -75,7 +78,7 @@ func c02Context() map[string]stick.Value {
 		"m": map[string]stick.Value{"a": 1, "k": "v"}, "mi": map[int]string{1: "one"}, "em": map[string]stick.Value{},
 		"obj": th, "pt": &th, "np": np, "nan": math.NaN(), "inf": math.Inf(1), "big": int64(math.MaxInt64), "fnv": func() {},
 		"things": []gen.Thing{th}, "nested": map[string]stick.Value{"in": map[string]stick.Value{"k": []int{1}}},
-		"str": gen.ValStringer{S: "st"}, "safe": stick.NewSafeValue("<b>", "html"),
+		"str": gen.ValStringer{S: "st"}, "safe": stick.NewSafeValue("<b>", "html"), "tm": time.Date(2021, 3, 4, 5, 6, 7, 0, time.UTC), "nilm": map[string]stick.Value(nil),
 	}
 }
 
